@@ -87,6 +87,18 @@ impl<'a> An<'a> {
         self.ended.iter().find(|(t, _, _)| *t == task).map(|(_, i, c)| (*i, *c))
     }
 
+    /// Did the actor of role `a` fail? Read off the trace, independently of whether `stopped()`
+    /// happened to run: a callback that was entered but never completed (panic, or a handler
+    /// abandoned by a failing timeout), a `started()` configured to return an error that was
+    /// reached, or a cancelled task.
+    pub fn role_failed(&self, a: u8, started: &[crate::world::StartBeh]) -> bool {
+        let unmatched = self.enters.iter().any(|e| e.a == a && !self.exits.iter().any(|x| x.a == a && x.cb == e.cb && x.inc == e.inc && x.idx > e.idx));
+        let starts = self.enters.iter().filter(|e| e.a == a && e.cb == Cb::Started).count();
+        let start_err = started.iter().take(starts).any(|b| *b != crate::world::StartBeh::Ok);
+        let cancelled = self.task_of_role(a).and_then(|t| self.end_of_task(t)).is_some_and(|(_, c)| c);
+        unmatched || start_err || cancelled
+    }
+
     pub fn enter_of_msg(&self, a: u8, id: u32) -> Vec<&CbRec> {
         self.enters.iter().filter(|e| e.a == a && e.cb == Cb::Msg(id)).collect()
     }
